@@ -18,6 +18,8 @@ import warnings
 import subprocess
 import concurrent.futures
 from collections import OrderedDict
+import collections as _collections
+import operator as _operator
 
 from .. import env
 from ..util import call, exc_sig, norm_text
@@ -204,6 +206,15 @@ def pool():
     add('flatten-lazy', lambda: [[1, 2], (3,)], lambda: Flatten(init='lazy'))
     add('merge', lambda: [{'a': 1}, {'b': 2}, {'a': 3}], lambda: Merge())
     add('fold-fail', lambda: 5, lambda: Sum())
+    # reductions whose default start value cannot take the elements (they fail - every time, touching nothing), and reductions over
+    # elements that support in-place addition
+    add('sum-of-lists-default-init', lambda: [[1], [2, 3], [4]], lambda: Sum())
+    add('sum-of-counters-default-init', lambda: [_collections.Counter(a=1), _collections.Counter(a=2, b=1)], lambda: Sum())
+    add('sum-of-lists', lambda: {'rows': [[1], [2, 3], [4]]}, lambda: ('rows', Sum(init=list)))
+    add('sum-of-counters', lambda: [_collections.Counter(a=1), _collections.Counter(a=2, b=1)], lambda: Sum(init=_collections.Counter))
+    add('fold-iadd-first-element', lambda: [[1], [2], [3]], lambda: Fold(T, init=list, op=_operator.iadd))
+    add('flatten-of-nested', lambda: [[[1]], [[2], [3]]], lambda: (Flatten(), Flatten()))
+    add('merge-of-nested', lambda: [{'a': {'x': 1}}, {'a': {'y': 2}}], lambda: Merge())
     add('group', nums, lambda: Group({T % 3: [T]}))
     add('group-agg', nums, lambda: Group({lambda x: x % 2: {'max': Max(), 'min': Min(), 'avg': Avg(), 'n': Count(), 'sum': Sum()}}))
     add('group-nested', data, lambda: ('e', Group({T['k']: {T['v']: Count()}})))
